@@ -1,3 +1,3 @@
--- This module serves as the root of the `Eru` library.
--- Import modules here that should be built as part of the library.
-import Eru.Basic
+-- Root of the `Eru` library.  Checks build their own targets (`lake build Eru.Props.Cnn oracle_<group>`);
+-- bin/setup builds every target named in checks/*.json.
+import Eru.Basic.Outcome
